@@ -5,11 +5,11 @@ EXPLANATION = ("Bounded symbolic checking (engine S, REAL mode, sqrt axiomatised
                "3x3 symmetric made of a coupled 2x2 block and an isolated diagonal entry in each of the three positions (the implicit QL iteration splits), 2x2 triangular input with distinct diagonal, and the defective 2x2 Jordan block (non-symmetric path: orthes + hqr2; for the defective input A.V = V.D is claimed within 16 eps |A||V|, the property's tolerance, because the kernel divides by eps.|A| in place of 0). "
                "Entries are solver variables; A.V = V.D, consistency of the eigenvalue lists with D, trace and determinant, ascending order and orthonormality (symmetric case) are decided exactly on every path. "
                "This is a partial claim: for general matrices the QL / QR iterations have no bound on their trip count over symbolic data.")
-FUNCTIONS = ["EigenValue<double>::{ctor (symmetry dispatch),tred2,tql2,orthes,hqr2,cdiv,getV,getD,getRealEigenValues,getImagEigenValues,isSymmetric}", "RowMatrix/ColMatrix/LinearMatrix accessors"]
+FUNCTIONS = ["EigenValue<double>::{ctor (symmetry dispatch),tred2,tql2,orthes,hqr2,cdiv,getV,getD,getRealEigenValues,getImagEigenValues,isSymmetric}", "MatrixTools::{pow(A,double),exp} (1x1, diagonal, upper-triangular 2x2)", "RowMatrix/ColMatrix/LinearMatrix accessors"]
 BOUNDS = ("entries real in [-100,100], non-zero couplings at least 0.001 in magnitude (away from the kernels' relative-epsilon 'negligible' regime); shapes: 1x1; 2x2 symmetric; 2x2 diagonal; 2x2 upper/lower triangular with distinct diagonal; 2x2 Jordan block; "
           "3x3 symmetric = coupled 2x2 block + isolated diagonal entry at position 0, 1 or 2 (one storage class; the others in the thorough tier); all three storage classes for the 1x1 and 2x2 inputs")
 OUTSIDE = ["general dense, companion, rotation-block (complex spectrum), repeated-eigenvalue, defective and graded matrices, and every size above 3: the iterations do not terminate symbolically", "the backward-error bound in floating point (exact equations are proved instead, away from the epsilon regime)",
-           "matrix exponential and real matrix power built on the decomposition", "DualityDiagram"]
+           "matrix exponential and real matrix power for symmetric and lower-triangular input (their eigenvectors carry square roots; measured: no verdict within 400 s) and non-integer powers", "DualityDiagram"]
 ASSUMPTIONS = BASE_ASSUMPTIONS + ["sqrt axioms: s >= 0, s*s = x, strictly increasing", "|a| is introduced as t>=0 and (t=a or t=-a) instead of a path split"]
 LEVEL_TEXT = ("Bounded symbolic checking on structured small inputs only: every path of the compiled tridiagonalisation / QL (and Hessenberg / QR) code that these inputs reach is explored with symbolic entries, and A.V = V.D, spectrum consistency, "
               "trace/determinant, ordering and orthonormality are proved for all real entries in the bound. General matrices are outside; the MANIFEST level note says so.")
@@ -18,6 +18,7 @@ TECHNIQUE = TECH
 E = {"SYM_ABS_NOFORK": "1", "SYM_DIV0_PRUNE": "1"}
 JOBS = [
     Job("small", "C06.cpp", ["HLO=0", "HHI=3"], env=E, budget_s=300, desc="1x1, 2x2 symmetric, 2x2 diagonal, 2x2 triangular; all storage classes"),
+    Job("matrix-functions", "C06.cpp", ["HLO=0", "HHI=3", "MATFUN"], env=E, budget_s=200, desc="MatrixTools::pow(A, p) for p = -2,-1,1,2,3 against repeated products / inverses and MatrixTools::exp against the closed-form sum of the power series, for 1x1, diagonal and upper-triangular 2x2 input with distinct eigenvalues; exp(A).V = V.exp(D), exp(A) commutes with A; a reported singularity of V is accepted"),
     Job("defective", "C06.cpp", ["HLO=5", "HHI=5"], env=E, budget_s=200, desc="2x2 Jordan block (repeated eigenvalue, one eigenvector): |A.V - V.D| <= 16 eps |A| |V| entrywise, spectrum, trace, determinant"),
     Job("block3", "C06.cpp", ["HLO=4", "HHI=4"], fix="A.storage=0", env=E, budget_s=300, tiers=("quick",), desc="3x3 symmetric: coupled 2x2 block + isolated entry in each position"),
     Job("block3-all-storage", "C06.cpp", ["HLO=4", "HHI=4"], env=E, budget_s=1500, tiers=("thorough",), desc="same, all storage classes"),
